@@ -22,6 +22,7 @@ HEADER = "from guppylang import guppy\nfrom guppylang.std.builtins import array\
     "@guppy.declare\ndef add3(x: int, y: int, z: int) -> int: ...\n"
     "@guppy.struct\nclass S:\n    v: int\n    @guppy\n    def __radd__(self: 'S', other: int) -> int:\n        return other\n"
     "@guppy.declare\ndef s0() -> S: ...\n"
+    "@guppy.declare\ndef bump3(x: array[int, 3]) -> None: ...\n@guppy.declare\ndef bump2(x: array[int, 2]) -> None: ...\n"
     "from collections.abc import Callable\n@guppy.declare\ndef p0() -> Callable[[int], int]: ...\n@guppy.declare\ndef p1() -> Callable[[int, int], int]: ...\n")
 
 def py_traces(expr, stmt=False):
@@ -44,6 +45,8 @@ def py_traces(expr, stmt=False):
         env["use_b"] = env["use_n"] = lambda x: None
         if stmt:
             env["xs"] = ML([0, 0, 0]); env["m"] = ML([ML([0, 0, 0]), ML([0, 0, 0])])
+            env["t"] = ML([ML([ML([0, 0]), ML([0, 0])]), ML([ML([0, 0]), ML([0, 0])])])
+            env["bump2"] = env["bump3"] = lambda x: None
             exec(expr, env)
         else:
             eval(expr, env)
@@ -206,7 +209,7 @@ def compile_all(exprs):
     src = [HEADER]
     for i, (kind, ex) in enumerate(exprs):
         if kind == "s":      # a statement over two borrowed arrays
-            src.append(f"@guppy\ndef f{i}(xs: array[int, 3], m: array[array[int, 3], 2]) -> None:\n    {ex}\n")
+            src.append(f"@guppy\ndef f{i}(xs: array[int, 3], m: array[array[int, 3], 2], t: array[array[array[int, 2], 2], 2]) -> None:\n    {ex}\n")
         else:
             src.append(f"@guppy\ndef f{i}() -> None:\n    use_{kind}({ex})\n")
     d = tempfile.mkdtemp(dir=os.environ.get("TMPDIR", "/var/tmp")); fn = os.path.join(d, "c05_progs.py")
@@ -303,7 +306,10 @@ def exprs(tier):
     out += [("n", e) for e in ints]
     # statements: an index expression is evaluated once, container/index before the right-hand side
     out += [("s", e) for e in ["xs[n0()] += n1()", "xs[n0()] = n1()", "m[n0()][n1()] += n2()", "xs[n0()] -= xs[n1()]", "xs[n0() + n1()] *= 2", "m[n0()][1] += add3(n1(), n2(), n3())",
-                               "xs[1] += n0()", "xs[n0()] += 1 if b0() else 2"]]
+                               "xs[1] += n0()", "xs[n0()] += 1 if b0() else 2",
+                               # borrowed (nested) subscripts and deep assignments: the write-back re-uses the index, it does not re-evaluate it
+                               "bump3(m[n0()])", "bump2(t[n0()][n1()])", "bump2(t[n0()][0])", "t[n0()][0][1] = n1()", "t[n0()][n1()][n2()] = n3()",
+                               "t[n0()][n1()][0] += n2()", "bump2(t[add3(n0(), n1(), n2())][n3()])"]]
     out += [("b", e) for e in ["n0() + n1() < n2() * n3()", "b0() and n0() < n1() < n2()", "n0() < n1() < n2() or b0()", "not (n0() < n1() <= n2() < n3())",
                                "(n0() < n1()) == (n2() < n3())", "b0() if n0() < n1() < n2() else b1()", "n0() in array(n1(), n2())" ]]
     return out
